@@ -375,7 +375,8 @@ class C03(MotionMonitor):
     rule = ("as C01; oracle compares printer A with printer B after every move whose points are all outside; non-trivial = "
             "a closing step whose episode's entering move changed Z, or that happened in relative or inch encoding")
     assumptions = C01.assumptions
-    classes = [(3, "abs-mm-z", mk(arcs=True)), (3, "relative", mk(rel=True, arcs=True)), (2, "inch", mk(inch=True, arcs=True)),
+    classes = [(3, "abs-mm-z", mk(arcs=True, at=True)), (3, "relative", mk(rel=True, arcs=True, arcs_rel=True, at=True)),
+               (2, "inch", mk(inch=True, arcs=True)),
                (3, "rel-inch-switching", mk(rel=True, inch=True, arcs=True, spell=True)),
                (1, "firmware", mk(fw=True, rel=True)), (1, "g28-mid", mk(g28mid=True, rel=True, inch=True)),
                (0.5, "g92xyz-outside-episodes", mk(g92xyz=True, rel=True, g28mid=True, boost=0.1)),
@@ -441,6 +442,11 @@ class C04(ExtrusionMonitor):
 
 class C05(ExtrusionMonitor):
     prop = "C05"
+
+    def settings_for(self, rnd, feats):
+        s = MotionMonitor.settings_for(self, rnd, feats)
+        s["g90e"] = bool(feats.get("g90e"))     # relative extrusion (G91 with the setting on) is within C05's quantifier
+        return s
     quick_cases = 3000
     exhaustive = (5, 7)
     rule = ("as C04 with long alternations of enter/retract/recover/exit; oracle compares the physical retraction depth (high-water "
@@ -450,6 +456,7 @@ class C05(ExtrusionMonitor):
     classes = [(4, "e-only", mk(p_inside=0.5)), (2, "e-only-inch-rel", mk(inch=True, rel=True)),
                (3, "firmware", mk(fw=True)), (1, "firmware-rel", mk(fw=True, rel=True, inch=True)),
                (2, "e-only-g92e", mk(g92e_retracted=True, g92e_entry=True, p_inside=0.5)), (1, "e-only-at", mk(at=True)),
+               (2, "relative-extrusion", mk(rel=True, g90e=True, p_inside=0.5, g92e_retracted=True)),
                (1, "e-only-arcs", mk(arcs=True))]
 
     def oracle(self, tr, stats, case):
